@@ -29,8 +29,8 @@ MANIFEST = dict(
           "equal ignoring case) with identical parser diagnostics; C17_outline: on similar trees with declarations as written the "
           "outline is identical except for the letter case of the detail strings, and identical when the echoed references are "
           "spelled alike; C17_outline_refuted: the details ARE references echoed as written (parent class, field type, return "
-          "type); C17_diagnostics: parser diagnostics, unused-variable warnings (guard: no later operand of a dot starts where "
-          "the left one starts) and all lint rules incl. the naming rules are identical when declarations are as written, the "
+          "type); C17_diagnostics: parser diagnostics, unused-variable warnings (no guard; the rule as it was before the repair of tools/c15_proposed_fix.diff needed: no "
+          "later operand of a dot starts where the left one starts, C17_old_unused_var_guard_needed) and all lint rules incl. the naming rules are identical when declarations are as written, the "
           "non-naming rules are invariant even when declarations are re-cased (up to the case of the quoted name); "
           "C17_symbol_table / C17_resolution / C17_resolution_uses / C17_class_index / C17_completion / C17_completion_dotted / "
           "C17_operand_spelling / C17_hierarchy: the look-ups of the symbol table, the scoping model (identifier, enclosing "
